@@ -170,4 +170,19 @@ def addDiaJ (j : Json) : Except String Json := do
   let out := addDia a b s
   pure <| Json.mkObj [("abs", absJ out.rows out.cols out.abs), ("offsets", Json.arr (out.diags.map fun p => (p.1 : Json)).toArray)]
 
+def ciConj (z : CI) : CI := ⟨z.re, -z.im⟩
+
+/-- {left, right, scalar_is_ket} -> <left|right> by the loops of `inner_dia` -/
+def innerDiaJ (j : Json) : Except String Json := do
+  let l ← diaOf j "left"
+  let r ← diaOf j "right"
+  pure <| Json.mkObj [("value", ciJ (innerDia ciConj l r (← getBool j "scalar_is_ket")))]
+
+/-- {left, op, right, scalar_is_ket} -> <left|op|right> by the loops of `inner_op_dia` -/
+def innerOpDiaJ (j : Json) : Except String Json := do
+  let l ← diaOf j "left"
+  let o ← diaOf j "op"
+  let r ← diaOf j "right"
+  pure <| Json.mkObj [("value", ciJ (innerOpDia ciConj l o r (← getBool j "scalar_is_ket")))]
+
 end Qv.Drv.C01
